@@ -74,6 +74,9 @@ def contexts(X, fX, H=None, HL=None):
         "Dict": (Dict[str, X], lambda v: {k: fX(x) for k, x in v.items()}, lambda d: [{"k": d}, {}]),
         "Tuple": (Tuple[X, bool], lambda v: (fX(v[0]), v[1]), lambda d: [[d, True], [d]]),
         "Union": (Union[X, bool], lambda v: v if isinstance(v, bool) else fX(v), lambda d: [d, True]),
+        # an unsupported alternative (ignored) declared BEFORE the converted one, bare and inside a list
+        "UndefFirst": (Union[UndefinedType, X], lambda v: fX(v), lambda d: [d]),
+        "ListUndefFirst": (List[Union[UndefinedType, X, None]], lambda v: [None if x is None else fX(x) for x in v], lambda d: [[d], [d, None]]),
         "field": (H, lambda v: v, lambda d: [{"k": d}, {}]),
         "field_list": (HL, lambda v: v, lambda d: [{"ks": [d]}, {"ks": []}]),
         "list_of_field": (List[H], lambda v: v, lambda d: [[{"k": d}]]),
@@ -313,6 +316,10 @@ def map_leaves(cname: str, v, fX):
         return (fX(v[0]), v[1])
     if cname == "Union":
         return v if isinstance(v, bool) else fX(v)
+    if cname == "UndefFirst":
+        return fX(v)
+    if cname == "ListUndefFirst":
+        return [None if x is None else fX(x) for x in v]
     return map_holders(v, fX)
 
 
